@@ -6,17 +6,17 @@ import UF.Model.Match
   Rule identity (Go pointer equality in `slices.Contains(found, rule)`) is the position of the
   rule in the scanned list.
 -/
-namespace UF
-open Bytes
+namespace UF.B
+open UF UF.Bytes
 
 /-- `CosmeticRule.Match`. -/
-def CosRule.matches (ext : Ext) (r : CosRule) (host : Bytes) : Bool :=
+def cosMatches (ext : Ext) (r : CosRule) (host : Bytes) : Bool :=
   if r.permDomains.isEmpty && r.restrDomains.isEmpty then true
   else if decide (r.restrDomains.length > 0) && isDomainOrSubdomainOfAny ext host r.restrDomains then false
   else if decide (r.permDomains.length > 0) && !isDomainOrSubdomainOfAny ext host r.permDomains then false
   else true
 
-def CosRule.isGeneric (r : CosRule) : Bool := r.permDomains.isEmpty
+def cosIsGeneric (r : CosRule) : Bool := r.permDomains.isEmpty
 
 /-- Go `map[string][]*CosmeticRule`, newest binding first. -/
 abbrev SMap (α : Type) := List (Bytes × α)
@@ -36,7 +36,7 @@ structure CosTable where
 /-- `cosmeticLookupTable.addRule`; `n` is the identity of the rule object. -/
 def CosTable.addRule (t : CosTable) (n : Nat) (r : CosRule) : CosTable :=
   if r.whitelist then { t with whitelist := sset t.whitelist r.content (sget [] t.whitelist r.content ++ [r]) }
-  else if r.isGeneric then { t with generic := t.generic ++ [r] }
+  else if cosIsGeneric r then { t with generic := t.generic ++ [r] }
   else if r.permDomains.any (fun d => hasSuffix d (lit ".*")) then { t with wildcard := t.wildcard ++ [(n, r)] }
   else { t with byHostname := r.permDomains.foldl (fun m d => sset m d (sget [] m d ++ [(n, r)])) t.byHostname }
 
@@ -46,13 +46,13 @@ def CosTable.build (L : List CosRule) : CosTable :=
 
 /-- `isWhitelisted`. -/
 def CosTable.isWhitelisted (ext : Ext) (t : CosTable) (host : Bytes) (r : CosRule) : Bool :=
-  (sget [] t.whitelist r.content).any (fun e => e.matches ext host)
+  (sget [] t.whitelist r.content).any (fun e => cosMatches ext e host)
 
 /-- The closure `add` of `findByHostname`. -/
 def CosTable.addFound (ext : Ext) (t : CosTable) (host : Bytes)
     (found cands : List (Nat × CosRule)) : List (Nat × CosRule) :=
   cands.foldl (fun found c =>
-    if found.any (·.1 == c.1) || !c.2.matches ext host || t.isWhitelisted ext host c.2 then found
+    if found.any (·.1 == c.1) || !cosMatches ext c.2 host || t.isWhitelisted ext host c.2 then found
     else found ++ [c]) found
 
 /-- The suffixes visited after the first probe: what `strings.Cut(domain, ".")` leaves, until it is empty. -/
@@ -76,9 +76,9 @@ def CosTable.matchHost (ext : Ext) (t : CosTable) (host : Bytes)
     (includeCSS _includeJS includeGenericCSS : Bool) : List Bytes × List Bytes :=
   if includeCSS then
     let gen := if includeGenericCSS then
-        t.generic.filter (fun r => !t.isWhitelisted ext host r && r.matches ext host) else []
+        t.generic.filter (fun r => !t.isWhitelisted ext host r && cosMatches ext r host) else []
     let all := gen ++ (t.findByHostname ext host).map (·.2)
-    ((all.filter (·.isGeneric)).map (·.content), (all.filter (!·.isGeneric)).map (·.content))
+    ((all.filter (fun r => cosIsGeneric r)).map (·.content), (all.filter (fun r => !cosIsGeneric r)).map (·.content))
   else ([], [])
 
-end UF
+end UF.B
